@@ -494,6 +494,9 @@ preserving('A13-ok-inplace-on-fresh-copy', ['C04'], edit=[('python/numqi/sim/_to
            "        q0_conj = np.conjugate(ctx.saved_tensors[0].detach().numpy())\n        q0_conj *= 1")])
 preserving('M4-ok-reciprocal-norm', ['C11'], edit=[('python/numqi/sim/state.py',
            "    q2[ind2] = q1[ind2] / np.sqrt(prob[ind1])", "    q2[ind2] = q1[ind2] * (1/np.sqrt(prob[ind1]))")])
+preserving('CAST1-ok-dtype-chosen-by-complexness', ['C13', 'C04'], edit=[('python/numqi/_torch_op.py',
+           "    EVL, EVC = torch.linalg.eigh(matA)\n    sqrt_EVL = torch.maximum(",
+           "    if matA.dtype in {torch.float32, torch.complex64}:\n        EVL, EVC = torch.linalg.eigh(matA.to(torch.complex128 if matA.is_complex() else torch.float64))\n        EVL, EVC = EVL.to(torch.float32), EVC.to(matA.dtype)\n    else:\n        EVL, EVC = torch.linalg.eigh(matA)\n    sqrt_EVL = torch.maximum(")])
 breaking('refix-get_gme_2qubit', {'C13': 'F2', 'C05': 'F2'}, patch_reverse='fix_78cd862.diff')
 
 # ---- behaviour-preserving edits for the second half of the round-3 rules
